@@ -686,13 +686,19 @@ def _resolve_order(groups, out_nodes):
     return ordered, tie
 
 
-def _run_real(case, mappings, ff_cg, mol):
+def _run_real(case, mappings, ff_cg, mol, warm=None):
     options = case['options']
     kwargs = dict(attribute_keep=tuple(options['keep']), attribute_must=tuple(options['must']),
                   attribute_stash=tuple(options['stash']))
     if case['via'] == 'function':
         return do_mapping(mol, mappings, ff_cg, **kwargs)
     processor = DoMapping(mappings, ff_cg, **kwargs)
+    if warm is not None:
+        # the processor object (and the mappings / force field it holds) has served a molecule before
+        try:
+            processor.run_molecule(warm)
+        except Exception:  # pylint: disable=broad-except
+            pass    # the same input is judged on the molecule of the case
     if case['via'] == 'molecule':
         return processor.run_molecule(mol)
     system = System(force_field=mol.force_field)
@@ -842,8 +848,11 @@ def _run_toy(case):
     except ref.TooManyPlacements:
         return Outcome(['skipped-too-many-placements'], False)
     before = _snapshot(mol)
+    warm = None
+    if case['via'] != 'function' and len(atoms) % 2 == 0:
+        warm = build(case)[3]
     with capture_logs() as logs:
-        out = _run_real(case, mappings, ff_cg, mol)
+        out = _run_real(case, mappings, ff_cg, mol, warm)
     if _snapshot(mol) != before:
         raise Violation('input-modified', 'the input molecule was changed by the transformation')
     classes = ['via-' + case['via']]
